@@ -131,6 +131,38 @@ fn gen(ctx: &GenCtx, i: u64, prop: &str) -> Option<Run> {
     let footer = if r.chance(1, 4) { Some(nonempty_text!(r, 6)) } else { None };
     let assertion = if proto.has_assertion() && r.chance(1, 4) { Some(nonempty_text!(r, 6)) } else { None };
     let now = gen_now(&mut r).clamp(T_1971 + 2 * DAY, t_9000() - 400 * DAY);
+    // one run in five (a stream of its own, so that every other choice stays as it was): the footer is a JSON
+    // object that itself has members named like the time claims, on the side that would let everything
+    // through - the footer is authenticated text and no claim
+    let mut r2 = run_rng(ctx, if prop == "C11" { "C11-footer" } else { "C12-footer" }, i);
+    let footer = if r2.chance(1, 5) {
+        let far_future = civil::render((now + 300 * DAY).clamp(T_1971, t_9000() - 1), civil::Style { offset_min: 0, frac_digits: 0, sep: 'T', zulu: Some('Z') });
+        let far_past = civil::render((now - 300 * DAY).clamp(T_1971, t_9000() - 1), civil::Style { offset_min: 0, frac_digits: 0, sep: 'T', zulu: Some('Z') });
+        let mut o = serde_json::Map::new();
+        o.insert("kid".into(), json!("key-7"));
+        match r2.below(4) {
+            0 => {
+                o.insert("exp".into(), json!(far_future));
+                o.insert("nbf".into(), json!(far_past));
+            }
+            1 => {
+                o.insert("exp".into(), Value::Null);
+                o.insert("nbf".into(), Value::Null);
+            }
+            2 => {
+                o.insert(if prop == "C11" { "exp" } else { "nbf" }.into(), json!(if prop == "C11" { far_future } else { far_past }));
+            }
+            _ => {
+                o.insert("exp".into(), json!(far_future));
+                o.insert("nbf".into(), json!(far_past));
+                o.insert("iat".into(), json!(far_past));
+                o.insert("data".into(), json!("x"));
+            }
+        }
+        Some(Value::Object(o).to_string())
+    } else {
+        footer
+    };
     // the verifier under test and its control
     // one run in six: the default parser additionally gets check_claim(exp|nbf = v); a token carrying
     // exactly v is then still subject to the time rule (v expired / not yet valid => rejected)
